@@ -16,6 +16,7 @@ import LdkModel.Generated.NoiseConsts
 import LdkModel.Generated.PeerSizes
 import LdkModel.Proofs.PeerWriteE2E
 import LdkModel.Proofs.EphKey
+import LdkModel.Model.HsTimer
 namespace Ldk.C15
 open Ldk.Noise Ldk.Framing
 
@@ -1230,5 +1231,82 @@ example :
   decide
 
 end Ephemeral
+
+/-! ## Replayed RESPONDER transcript against an outbound connection, and the timer -/
+section ReplayResponderAndTimer
+open Ldk.PeerWrite Ldk.HsTimer Ldk.PeerWriteGen
+
+/-- **A recorded act two is rejected by an initiator with different key material.**  The recorded
+    act two carries the tag `seal tempK 0 h1 []` of the session it was made in; an initiator whose own
+    (temp_k, handshake hash) for this act differs — it drew another ephemeral key for the new
+    outbound connection (`eph_keys_fresh`), so its `h` after act one and `ee` differ — returns Err
+    (process_act_two "Bad MAC"): no act three is written, no key is derived, nothing is processed. -/
+theorem replayed_act_two_rejected (ha : Authentic c) (hb : HsBoxBinds c) (st : HS) (re tempK h1 : Bytes)
+    (ssOf : Bytes → Bytes)
+    (hdiff : ((mixKey c { st with h := c.hash (st.h ++ re) } (ssOf re)).2, c.hash (st.h ++ re)) ≠ (tempK, h1))
+    (hre : re.length = 33) :
+    inboundAct c st ((0 : UInt8) :: re ++ c.aeadSeal tempK 0 h1 []) ssOf = none := by
+  unfold inboundAct
+  split
+  · rfl
+  · split
+    · rfl
+    · have e1 : List.take 33 (List.drop 1 ((0 : UInt8) :: re ++ c.aeadSeal tempK 0 h1 [])) = re := by
+        simp only [List.cons_append, List.drop_succ_cons, List.drop_zero]
+        rw [← hre, List.take_left']; rfl
+      have e2 : List.drop 34 ((0 : UInt8) :: re ++ c.aeadSeal tempK 0 h1 []) = c.aeadSeal tempK 0 h1 [] := by
+        simp only [List.cons_append, List.drop_succ_cons]
+        rw [← hre, List.drop_left']; rfl
+      simp only [e1, e2]
+      split
+      · rfl
+      · simp only [mixKey] at hdiff ⊢
+        cases ho : c.aeadOpen (c.hkdf2 st.ck (ssOf re)).2 0 (c.hash (st.h ++ re)) (c.aeadSeal tempK 0 h1 []) with
+        | none => rfl
+        | some m =>
+          exfalso
+          have := hb _ _ _ _ _ _ _ _ (ha _ _ _ _ _ ho)
+          exact hdiff (by rw [← this.1, ← this.2])
+-- non-vacuity (bindToy: boxes carry key and associated data in clear)
+example : inboundAct bindToy { h := [2], ck := [] } ((0 : UInt8) :: List.replicate 33 6 ++ bindToy.aeadSeal [1, 7] 0 [9] []) (fun _ => [7]) = none := by
+  decide
+
+/-- **Handshake timeout**: a connection that does not complete its handshake survives exactly one
+    timer tick and is disconnected by the second (for every later tick count as well). -/
+theorem handshake_timeout_two_ticks :
+    hsTicks 1 0 = some 1 ∧ ∀ n, 2 ≤ n → hsTicks n 0 = none := by
+  refine ⟨by decide, ?_⟩
+  intro n hn
+  obtain ⟨k, rfl⟩ : ∃ k, n = k + 2 := ⟨n - 2, by omega⟩
+  simp [hsTicks, hsTick, PeerTimer.hsTickDisconnects, PeerTimer.HS_TICK_SET]
+
+/-- **Ping timeout: a silent peer is dropped, an answering peer is not.**  For a handshake-complete
+    peer and every number of peers, schedule and refill source (the translated ladder):
+    (a) a ping is outstanding (`awaiting_pong_timer_tick_intervals > 0`) and nothing was received since
+        the last tick ⇒ this tick disconnects;
+    (b) the pong arrived (`pongReceived`: timer back to 0) ⇒ this tick does not disconnect, whatever
+        else happened;
+    (c) the peer keeps sending but never answers the ping: it is disconnected exactly when the timer
+        exceeds MAX_BUFFER_DRAIN_TICK_INTERVALS_PER_PEER · #peers. -/
+theorem ping_timeout_rule (sched : Nat → Option Nat) (bl : Bool) (p : WPeer) (src : Src) (npeers : Nat)
+    (flush : Bool) :
+    (0 < p.pongTimer → p.recv = false → tickCore c sched bl p src npeers flush = none)
+    ∧ (tickCore c sched bl (pongReceived p) src npeers flush).isSome = true
+    ∧ (0 < p.pongTimer → p.recv = true →
+        ((tickCore c sched bl p src npeers flush = none)
+          ↔ p.pongTimer.toNat > PeerWriteGen.MAX_BUFFER_DRAIN_TICK_INTERVALS_PER_PEER * npeers)) := by
+  refine ⟨?_, ?_, ?_⟩
+  · intro ht hr
+    have h1 : timerMagic p.pongTimer = false := by simp [timerMagic]; omega
+    simp [tickCore, h1, timerDisconnects, notRecentlyActive, hr, ht]
+  · simp [tickCore, pongReceived, timerMagic, timerDisconnects, notRecentlyActive, reachedThreshold,
+      asU64, timerStillWaiting]
+  · intro ht hr
+    have h1 : timerMagic p.pongTimer = false := by simp [timerMagic]; omega
+    have h2 : ¬ p.pongTimer < 0 := by omega
+    simp [tickCore, h1, timerDisconnects, notRecentlyActive, hr, reachedThreshold, asU64, h2,
+      timerStillWaiting, ht]
+
+end ReplayResponderAndTimer
 
 end Ldk.C15
